@@ -987,6 +987,18 @@ fn main_check(ctx: &Ctx) -> Outcome {
         fault_dev += dev;
         out.push_part(json!({"system": format!("{mode:?} over a scripted Box<dyn Write> (short writes, errors)"), "max_input_tokens": maxlen, "deviation_bound": if quick { 2 } else { 3 }, "executions": runs, "executions_with_deviation": dev}));
     }
+    // large inputs through every mode (strip and pass-through): sizes around the 4/8/16/64 KiB marks
+    {
+        let sizes: Vec<usize> = if quick { vec![1023, 8191, 8192, 8193, 20000] } else { vec![1023, 4095, 4096, 4097, 8191, 8192, 8193, 16384, 16385, 20000, 65535, 65537, 131073] };
+        let k_large = move |n: usize| if n == 1023 { 1 } else { 0 };
+        for mode in [vchecks::fault_sys::Mode::Strip, vchecks::fault_sys::Mode::PassAnsi, vchecks::fault_sys::Mode::PassAlways] {
+            let (f, runs, dev) = vchecks::fault_sys::large_sweep(mode, &sizes, &k_large);
+            out.findings.extend(f);
+            fault_runs += runs;
+            fault_dev += dev;
+            out.push_part(json!({"system": format!("{mode:?}: large inputs over a scripted Box<dyn Write>"), "sizes": sizes, "shifts": vchecks::fault_sys::LARGE_UNIT.len(), "executions": runs, "executions_with_deviation": dev}));
+        }
+    }
     out.push_part(json!({"system":"_macros::to_adapted_string","strings_upto_tokens":n,"token_strings":strs.len(),"global_choices":4,"stream_kinds":stream_kinds,"evaluations":evals}));
     let _ = std::fs::remove_dir_all(tmp_dir());
     let _ = std::panic::take_hook();
@@ -1052,6 +1064,7 @@ fn replay(v: &serde_json::Value) -> Result<(), String> {
             r
         }
         "case" => vchecks::fault_sys::replay_case(v),
+        "large" => vchecks::fault_sys::replay_large(v),
         "stdio" => {
             let mut o = Outcome::default();
             stdio_part(&mut o);
